@@ -311,6 +311,23 @@ func c09Typed(b *c09Base) []c09Input {
 			add(class, c09Splice(file, v.off, v.size, refcar.PutUvarint(nil, c09SmallSec+1)), small)
 			add(class, c09Splice(file, v.off, v.size, refcar.PutUvarint(nil, c09DefaultHdr+1)), c09Opts{})
 			add(class, c09Splice(file, v.off, v.size, refcar.PutUvarint(nil, 1<<62)), c09Opts{})
+			// lengths just below 2^64: as a signed number they are small NEGATIVE steps, which would send
+			// a reader that adds them to its position back to an earlier section (or to this one)
+			if !v.header && v.off < b.poff(k)+int(b.payload.HeaderSize)+400 {
+				for nk := uint64(1); nk <= 72; nk++ {
+					sp := c09Splice(file, v.off, v.size, refcar.PutUvarint(nil, -nk))
+					if k == "v2" && len(sp) >= 51 {
+						// keep the container consistent (payload size and index offset follow the longer prefix),
+						// so that a store opens from the embedded index and only the listing meets the length
+						delta := uint64(len(sp) - len(file))
+						binary.LittleEndian.PutUint64(sp[35:], binary.LittleEndian.Uint64(sp[35:])+delta)
+						if io := binary.LittleEndian.Uint64(sp[43:]); io != 0 {
+							binary.LittleEndian.PutUint64(sp[43:], io+delta)
+						}
+					}
+					add(class, sp, small)
+				}
+			}
 			// non-minimal and over-long varints
 			add(class, c09Splice(file, v.off, v.size, []byte{0x80 | byte(v.val), 0x80, 0x00}), small)
 			add(class, c09Splice(file, v.off, v.size, []byte{0xff, 0xff, 0xff, 0xff, 0xff, 0xff, 0xff, 0xff, 0xff, 0xff, 0x01}), small)
